@@ -542,10 +542,14 @@ fn check_sched_unit(run: &mut Run, scratch: &Scratch, u: &SchedUnit, replay_choi
         ck(&x, &ch);
         return;
     }
+    let deadline = run.deadline();
     let stats = match u.bound {
-        None => sched::explore_states(vec![vec![]], 1_000_000, ex, ck),
-        Some(b) => sched::explore_bounded(b, vec![vec![]], ex, ck),
+        None => sched::explore_states(deadline, vec![vec![]], 1_000_000, ex, ck),
+        Some(b) => sched::explore_bounded(b, deadline, vec![vec![]], ex, ck),
     };
+    if stats.out_of_time {
+        run.capped = Some(format!("time budget reached in scheduler unit {}", u.json()));
+    }
     run.count_n("scheduler:states", stats.states);
     run.count_n("scheduler:transitions", stats.transitions);
     run.count_n(if u.bound.is_some() { "scheduler:bounded executions" } else { "scheduler:explicit-state executions" }, stats.executions);
